@@ -547,6 +547,35 @@ func runHistory(r *vkit.R, id int, g *vkit.Rand, longWait bool, hungProbe bool) 
 		time.Sleep(time.Duration(g.Range(0, 1200)) * time.Millisecond)
 	}
 
+	// "The normal way to retire a server": the endpoint is first marked disabled (no new picks, no probes; what happens to
+	// the requests already being proxied to it at that moment is not judged - on this code they stay), and removed from
+	// the server list by a later update. The statement's demand is about the REMOVAL: whatever is still being proxied to
+	// the endpoint then must be cut.
+	retire := ""
+	if kind == "endpoint-remove" && !hungProbe && g.Chance(0.4) {
+		retire = "/disabled-before-removal"
+		if !func() bool {
+			if sr := h.gw.Apply(withE1Disabled()); sr.Err != nil || sr.Panic != nil || sr.Requeue {
+				h.fail(fmt.Sprintf("controller did not apply the disabling update: %+v", sr))
+				return false
+			}
+			return true
+		}() {
+			return
+		}
+		time.Sleep(time.Duration(g.Range(0, 30)) * time.Millisecond)
+		stillOpen := 0
+		for _, st := range targets {
+			_, _, _, ended, _ := st.snap()
+			up, seen := h.slog.get(st.ID)
+			if ended == 0 && seen && up.disc == 0 {
+				stillOpen++
+			}
+		}
+		r.Count("retire_histories_disable_then_remove", 1)
+		r.Count("streams_still_proxied_to_the_disabled_endpoint_at_removal", stillOpen)
+	}
+
 	// ---- the removal ----
 	t0 := bed.Now()
 	var sr bed.SyncResult
@@ -561,13 +590,13 @@ func runHistory(r *vkit.R, id int, g *vkit.Rand, longWait bool, hungProbe bool) 
 		return
 	}
 	wit := func(st *stream, detail interface{}) witness {
-		return witness{History: id, Kind: kind, Pre: pre, A: h.aStubs, B: h.bStubs, Shared: h.shared, Timing: timing, Stream: st, Detail: detail, Streams: len(h.streams), RemoveMs: float64(tRemoved-t0) / 1e6}
+		return witness{History: id, Kind: kind + retire, Pre: pre, A: h.aStubs, B: h.bStubs, Shared: h.shared, Timing: timing, Stream: st, Detail: detail, Streams: len(h.streams), RemoveMs: float64(tRemoved-t0) / 1e6}
 	}
 	r.Eval(1)
 	r.Count("histories", 1)
 	r.Count("removal_"+kind, 1)
 	r.Count("timing_"+timing, 1)
-	r.Distinct(vkit.Hash64(kind, timing, pre, fmt.Sprint(nA, nB, h.shared, hungProbe), streamShape(h.streams)))
+	r.Distinct(vkit.Hash64(kind, timing, pre, retire, fmt.Sprint(nA, nB, h.shared, hungProbe), streamShape(h.streams)))
 	if pre != "none" && kind == "endpoint-remove" {
 		r.Count("endpoint_removals_after_disable_enable", 1)
 		if longWait {
@@ -695,7 +724,7 @@ func runHistory(r *vkit.R, id int, g *vkit.Rand, longWait bool, hungProbe bool) 
 			} else if uOpen {
 				side = "both-sides-left-open"
 			}
-			r.Violation(fmt.Sprintf("C15/%s/in-flight-not-cancelled/%s/%s", kind, st.Phase, side),
+			r.Violation(fmt.Sprintf("C15/%s/in-flight-not-cancelled/%s/%s%s", kind, st.Phase, side, retire),
 				fmt.Sprintf("%s: a request (%s, user %s, stub %d, phase %s) that was being proxied to the removed target was not ended %v after the removing sync returned (client side open=%v, chunks so far %d; upstream request open=%v) while %d control streams kept delivering data",
 					kind, st.Mode, st.User, st.Stub, st.Phase, promptD, cOpen, chunks, uOpen, len(controls)),
 				wit(st, map[string]interface{}{"status": status, "chunks": chunks, "client_open": cOpen, "upstream_open": uOpen}))
@@ -809,7 +838,7 @@ func TestCheck(t *testing.T) {
 			"them, removed endpoint -> never receives them; (b) every request that was being proxied to the removed target ends on the client side AND at the stub within 5 s while all control " +
 			"streams keep delivering data; control streams (other cluster, other endpoints of A, B's stream to the same upstream) stay open and carry data; (c) no /healthz probe reaches the " +
 			"removed target later than 500 ms after the sync although TriggerHealthCheck is called on the retained EndpointInfo (some histories wait 6 s: ticker and probe timeout; some remove " +
-			"the target while its probe hangs; in 45% of the histories - and in all long-wait ones - the endpoint had been disabled (at creation or later) and enabled again before, so its checker was restarted by a spec update); (d) the other cluster and the remaining endpoints answer new requests. Distinct = hash(removal kind, timing, topology, stream shapes).")
+			"the target while its probe hangs; in 45% of the histories - and in all long-wait ones - the endpoint had been disabled (at creation or later) and enabled again before, so its checker was restarted by a spec update; in 40% of the endpoint removals the endpoint is first marked disabled by one update while the streams run and removed by the next); (d) the other cluster and the remaining endpoints answer new requests. Extra histories with the production bearer-token wiring (token-review / access-review webhooks over the controller, cache TTL > 0): reviews before, removal of the endpoint that served the first review (or cluster delete), then requests with new tokens: no TokenReview / SubjectAccessReview / proxied request may reach the removed target. Distinct = hash(removal kind, timing, topology, stream shapes).")
 		r.Assume("the 5 s promptness bound is judged only while the control streams of the same history deliver data (otherwise inconclusive)")
 		r.Assume("a probe logged by a stub within 500 ms after the removing sync returned is taken as already in flight when the sync returned")
 		r.Assume("not placed: a removal while the TCP dial to the upstream is still pending")
@@ -821,9 +850,12 @@ func TestCheck(t *testing.T) {
 		long := tierN(r, 6, 40)
 		hung := tierN(r, 16, 40)
 		vkit.Sched.Enable(uint64(r.Seed), 0.02, 0.01, 0.0005)
-		r.Parallel(n+long+hung, 16, func(i int, g *vkit.Rand) {
+		wiredN := tierN(r, 40, 400)
+		r.Parallel(n+long+hung+wiredN, 16, func(i int, g *vkit.Rand) {
 			if p := vkit.Safely(func() {
 				switch {
+				case i >= n+long+hung:
+					wiredRemoval(r, i, g)
 				case i < hung:
 					runHistory(r, i, g, true, true)
 					r.Count("hung_probe_histories", 1)
@@ -841,6 +873,8 @@ func TestCheck(t *testing.T) {
 		r.Set("max_observed_cancel_latency_ms", float64(latMax)/1e6)
 
 		r.Require(r.Counter("histories") >= int64((n+long+hung)*9/10), "too few histories completed")
+		r.Require(r.Counter("wired_histories") >= int64(wiredN*9/10), "too few histories with the production token authenticator completed")
+		r.Require(r.Counter("wired_reviews_after_removal_at_remaining_endpoints") >= int64(wiredN*3), "too few review requests were observed after an endpoint removal (production authenticator wiring)")
 		r.Require(r.Counter("target_streams_ended") >= int64(tierN(r, 200, 2500)), "too few in-flight requests to removed targets were observed ending")
 		r.Require(r.Counter("target_streams_that_reached_their_stub") >= int64(tierN(r, 150, 2000)), "too few target requests had reached their stub")
 		r.Require(r.Counter("target_streams_streaming") > 0 && r.Counter("target_streams_awaiting-head") > 0 && r.Counter("target_streams_early") > 0, "a request phase was not exercised")
@@ -848,6 +882,7 @@ func TestCheck(t *testing.T) {
 		r.Require(r.Counter("new_requests_to_deleted_cluster") >= int64(tierN(r, 100, 1200)) && r.Counter("new_requests_to_remaining_endpoints") >= int64(tierN(r, 50, 600)), "too few new requests after removal")
 		r.Require(r.Counter("removed_targets_probe_checked") >= int64(tierN(r, 100, 1200)), "too few removed targets checked for probes")
 		r.Require(r.Counter("long_waits_after_removal") >= int64(long), "too few long waits after removal")
+		r.Require(r.Counter("streams_still_proxied_to_the_disabled_endpoint_at_removal") >= int64(tierN(r, 20, 250)), "too few streams were still being proxied to an endpoint that was disabled and then removed")
 		r.Require(r.Counter("endpoint_removals_after_disable_enable") >= int64(tierN(r, 15, 200)), "too few endpoint removals whose endpoint had been disabled and enabled before")
 		r.Require(r.Counter("endpoint_removals_after_disable_enable_with_long_wait") >= int64(tierN(r, 2, 10)), "too few endpoint removals after disable/enable followed by a > 5 s wait")
 	})
